@@ -292,7 +292,12 @@ func main() {
 	vdrv := flag.String("vdrv", "", "path to vdrv")
 	out := flag.String("out", "", "summary json")
 	replay := flag.String("replay", "", "file with op lines to replay")
+	extract := flag.String("extract", "", "write the regenerated Lean facts (Tie A) into this directory and exit")
 	flag.Parse()
+	if *extract != "" {
+		runExtract(*extract)
+		return
+	}
 	t0 := time.Now()
 	c := &Ctx{Prop: *prop, Tier: *tier, Seed: *seed, Rng: rand.New(rand.NewSource(*seed ^ int64(hash64(*prop)&0x7fffffff))),
 		Vdrv: *vdrv, Thorough: *tier == "thorough", distinct: map[uint64]struct{}{}, Dist: map[string]int{}, MaxFail: 25}
